@@ -92,40 +92,48 @@ class C15(Prop):
         "by signed faces with normals n_f and centres x_f, sum_f s_f (A x_f + b).n_f = sum_ij A_ij M_ij "
         "+ sum_i b_i N_i with M = sum s x n^T, N = sum s n (C15_div_u_identity), hence = tr(A)|K| "
         "under the divergence-theorem identities N = 0, M = |K| I, in 3-D and in 2-D (C15_div_u, "
-        "C15_div_u_2d); (2) any sparse row applied to the samples of u = A x + b (cell centres, "
-        "boundary face centres) is the same linear combination of its values on the nd*nd + nd basis "
-        "fields e_k x_l, e_k, so a row that returns alpha*delta_kl*|K| on e_k x_l and 0 on e_k returns "
-        "alpha*tr(A)*|K| for EVERY linear field (C15_linear_fields_2d/_3d, with the explicit form of "
-        "the sampled field C15_ustate_is_linear_field); (3) a row whose entries sum to -alpha*n_fk "
-        "gives -alpha*p*n_fk for every constant pressure p (C15_grad_p); (4) the checker evaluated in "
-        "the tie is sound with its tolerance (C15_certificate_sound: error <= sum_m |theta_m| * tol * "
-        "(1 + sum|terms|) for every linear field, tol*(1+sum|row|)*|p| for every constant pressure), "
-        "and with tolerance 0 it yields the exact hypotheses. Per run Coq evaluates the checkers by "
-        "vm_compute on the REAL matrices displacement_divergence, boundary_displacement_divergence "
-        "and scalar_gradient of pp.Biot (Fraction(float)) and on the real geometry arrays "
-        "(identities N = 0, M = |K| I) of generated 2-D/3-D grids; a numpy oracle applies the "
-        "matrices to random linear fields and constant pressures.")
+        "C15_div_u_2d), and, UNDER THE EXPLICIT GUARD i_planar (all faces planar), on the cells of "
+        "every instance that passed the checker, with the tolerance carried through "
+        "(C15_div_u_on_planar_instance; the concrete non-planar hexahedron C15_nonplanar_example "
+        "violates the moment identity at the 1e-3 level while passing the Biot certificates); (2) "
+        "any sparse row applied to the samples of u = A x + b (cell centres, boundary face centres) "
+        "is the same linear combination of its values on the nd*nd + nd basis fields e_k x_l, e_k, so "
+        "a row that returns alpha_kl*|K| on e_k x_l and 0 on e_k returns (alpha:A)*|K| for EVERY "
+        "linear field, alpha a symmetric coupling TENSOR (C15_linear_fields_2d/_3d), which is "
+        "alpha*tr(A)*|K| for a scalar coefficient (C15_linear_fields_scalar), with the explicit form "
+        "of the sampled field (C15_ustate_is_linear_field); (3) a row whose entries sum to "
+        "-(alpha n_f)_k gives -p (alpha n_f)_k for every constant pressure p (C15_grad_p); (4) the "
+        "checker evaluated in the tie is sound with its tolerance (C15_certificate_sound), and with "
+        "tolerance 0 it yields the exact hypotheses (C15_exact_certificates). Per run Coq evaluates "
+        "the checkers by vm_compute on the REAL matrices displacement_divergence, "
+        "boundary_displacement_divergence and scalar_gradient of pp.Biot (Fraction(float)), scalar "
+        "and tensor coupling, and on the real geometry arrays of generated 2-D/3-D grids; a numpy "
+        "oracle applies the matrices to random linear fields and constant pressures.")
     level_note = (
         "Not proved: anything about biot.py / mpsa.py themselves (the MPSA construction is not "
         "re-implemented; its matrices are inputs whose certificates are checked on the generated "
         "instances only); that the Biot matrices ARE the face-sum of theorem (1) (they are built "
-        "from subcell gradients; (1) is the divergence-theorem form of the same quantity, its "
-        "geometric hypotheses are validated per instance); float rounding (certificates hold to "
-        "the relative tolerance 1e-9; the quantitative theorem carries it). Dirichlet mechanical "
-        "boundary on every boundary face, scalar coupling coefficient alpha (isotropic), "
-        "homogeneous isotropic stiffness. The expected value includes the coupling coefficient: "
-        "alpha*tr(A)*|K| (the matrices carry alpha).")
+        "from subcell gradients; (1) is the divergence-theorem form of the same quantity). The "
+        "geometric identities are checked, and claimed, only on instances flagged planar by the "
+        "harness (everything except 3-D Cartesian grids with moved nodes); on non-planar "
+        "hexahedra porepy's face centres/normals do not satisfy sum_f s x_f n_f^T = |K| I and "
+        "only the matrix certificates (2), (3) are claimed there. Float rounding: certificates hold "
+        "to the relative tolerance 1e-9 and the quantitative theorems carry it. Scope: Dirichlet "
+        "displacement condition on every boundary face (Neumann / mixed mechanical boundaries are "
+        "outside the property); constant coupling coefficient, scalar or symmetric tensor "
+        "(SecondOrderTensor); homogeneous isotropic stiffness. There is no assembled system in this "
+        "property, hence no non-singularity hypothesis.")
     technique = ("Coq proof of method-level theorems (linearity over Q, divergence-theorem identity by "
                  "induction + ring) + certificate checkers evaluated by vm_compute on the real Biot "
                  "matrices and geometry + numpy oracle")
     rule = ("grids: CartGrid 2-D (<=3x3) and 3-D (<=2x2x2), StructuredTriangleGrid, "
             "StructuredTetrahedralGrid, 55% with every node moved by a dyadic offset; Lame parameters "
-            "and alpha from dyadic sets; all-Dirichlet displacement boundary; linear field with small "
+            "and alpha (scalar, or a symmetric tensor in half of the cases) from dyadic sets; all-Dirichlet displacement boundary; linear field with small "
             "integer A, b; constant pressure; non-trivial = at least 2 cells and tr(A) != 0")
     trusted = ["rows handed to Coq = scipy hstack of the real matrices, explicit zeros dropped, converted "
                "with Fraction(float); geometry arrays likewise",
                "tolerance 1e-9 relative to 1 + sum|terms| inside the Coq checkers"]
-    assumptions = ["all boundary faces Dirichlet for the displacement; scalar alpha; constant Lame parameters",
+    assumptions = ["all boundary faces Dirichlet for the displacement; constant scalar or symmetric tensor alpha; constant Lame parameters",
                    "default MPSA eta and the default (numba) block inverter"]
 
     def __init__(self):
@@ -142,8 +150,15 @@ class C15(Prop):
             A = [[rng.randint(-3, 3) for _ in range(nd)] for _ in range(nd)]
             if rng.random() < 0.15:
                 A = [[-A[j][i] if i != j else 0 for j in range(nd)] for i in range(nd)]  # rotation, div = 0
+            alpha = rng.choice(alphas)
+            if rng.random() < 0.5:
+                # symmetric coupling tensor [xx, yy, zz, xy, xz, yz] (dyadic entries)
+                alpha = [rng.choice([0.5, 1.0, 2.0, 0.75]), rng.choice([0.5, 1.0, 1.5, 0.25]),
+                         rng.choice([0.5, 1.0, 2.0]), rng.choice([0.0, 0.25, -0.125]),
+                         rng.choice([0.0, 0.125, -0.25]) if nd == 3 else 0.0,
+                         rng.choice([0.0, -0.125, 0.25]) if nd == 3 else 0.0]
             yield {"grid": spec, "mu": rng.choice(mus), "lam": rng.choice(lams),
-                   "alpha": rng.choice(alphas), "A": A, "b": [rng.randint(-3, 3) for _ in range(nd)],
+                   "alpha": alpha, "A": A, "b": [rng.randint(-3, 3) for _ in range(nd)],
                    "p": rng.randint(-8, 8) / 2.0}
 
     # -------------------------------------------------------------- implementation
@@ -153,8 +168,15 @@ class C15(Prop):
         bf = g.get_all_boundary_faces()
         bc = pp.BoundaryConditionVectorial(g, bf, ["dir"] * bf.size)
         C = pp.FourthOrderTensor(float(case["mu"]) * np.ones(nc), float(case["lam"]) * np.ones(nc))
+        if isinstance(case["alpha"], (list, tuple)):
+            xx, yy, zz, xy, xz, yz = [float(v) * np.ones(nc) for v in case["alpha"]]
+            alpha = pp.SecondOrderTensor(kxx=xx, kyy=yy, kzz=zz, kxy=xy, kxz=xz, kyz=yz)
+            amat = alpha.values[:, :, 0]
+        else:
+            alpha = float(case["alpha"])
+            amat = alpha * np.eye(3)
         data = pp.initialize_data(g, {}, KW, {"fourth_order_tensor": C, "bc": bc,
-                                              "scalar_vector_mappings": {FLOW: float(case["alpha"])}})
+                                              "scalar_vector_mappings": {FLOW: alpha}})
         discr = pp.Biot(KW)
         discr.discretize(g, data)
         m = data[pp.DISCRETIZATION_MATRICES][KW]
@@ -166,6 +188,7 @@ class C15(Prop):
         isb = np.zeros(nf, dtype=bool)
         isb[bf] = True
         return {"nd": nd, "nc": nc, "nf": nf,
+                "alpha": [[float(amat[i, j]) for j in range(3)] for i in range(3)],
                 "cc": [[float(x) for x in g.cell_centers[:nd, c]] for c in range(nc)],
                 "fc": [[float(x) for x in g.face_centers[:nd, f]] for f in range(nf)],
                 "normals": [[float(x) for x in g.face_normals[:nd, f]] for f in range(nf)],
@@ -205,7 +228,7 @@ class C15(Prop):
         nd, nc, nf = full["nd"], full["nc"], full["nf"]
         A = np.array(case["A"], dtype=float)
         b = np.array(case["b"], dtype=float)
-        alpha = float(case["alpha"])
+        alpha = np.array(full["alpha"])[:nd, :nd]
         cc = np.array(full["cc"]).T
         fc = np.array(full["fc"]).T
         nrm = np.array(full["normals"]).T
@@ -216,19 +239,19 @@ class C15(Prop):
         uc = (A @ cc + b[:, None]).ravel("F")
         ub = (A @ fc + b[:, None]) * isb[None, :]
         val = D @ np.hstack([uc, ub.ravel("F")])
-        exact = alpha * np.trace(A) * vols
+        exact = float(np.sum(alpha * A)) * vols
         scale = max(1.0, np.abs(D).max()) * (1.0 + np.abs(A).max() + np.abs(b).max()) * (1.0 + np.abs(fc).max())
         if np.abs(val - exact).max() > 1e-8 * scale:
             c = int(np.argmax(np.abs(val - exact)))
             return (f"displacement divergence of u = A x + b (A={A.tolist()}, b={b.tolist()}) in cell {c}: "
-                    f"{val[c]:.12g}, expected alpha*tr(A)*|K| = {exact[c]:.12g}")
+                    f"{val[c]:.12g}, expected (alpha:A)*|K| = {exact[c]:.12g}")
         p = float(case["p"])
         gp = G @ (p * np.ones(nc))
-        ex = -alpha * p * nrm.ravel("F")
+        ex = -p * (alpha @ nrm).ravel("F")
         if np.abs(gp - ex).max() > 1e-8 * max(1.0, np.abs(G).max()) * (1.0 + abs(p)):
             q = int(np.argmax(np.abs(gp - ex)))
             return (f"scalar gradient of constant pressure {p} on face {q // nd} component {q % nd}: "
-                    f"{gp[q]:.12g}, expected -alpha*p*n = {ex[q]:.12g}")
+                    f"{gp[q]:.12g}, expected -p*(alpha n) = {ex[q]:.12g}")
         return None
 
     # -------------------------------------------------------------- tie
@@ -236,7 +259,7 @@ class C15(Prop):
         rows = lambda rs: clist(rs, crow)
         vl = lambda vs: clist(vs, lambda v: clist(v, cq))
         return ("(mk_inst {} {} {} {} {} {} {} {} {} {} {} {} {})".format(
-            cn(full["nd"]), cn(full["nc"]), cn(full["nf"]), cq(case["alpha"]),
+            cn(full["nd"]), cn(full["nc"]), cn(full["nf"]), vl(full["alpha"]),
             vl(full["cc"]), vl(full["fc"]), vl(full["normals"]), clist(full["vols"], cq),
             rows(full["inc"]), clist(full["bnd"], cbool), cbool(full["planar"]), rows(full["drows"]), rows(full["grows"])))
 
@@ -249,6 +272,9 @@ class C15(Prop):
     def nontrivial(self, case, res):
         self._stats["dims"][str(res["nd"])] = self._stats["dims"].get(str(res["nd"]), 0) + 1
         k = case["grid"]["kind"] + ("+pert" if case["grid"].get("pert") else "")
+        self._stats["alpha_tensor"] = self._stats.get("alpha_tensor", 0) + int(isinstance(case["alpha"], list))
+        self._stats["nonplanar_geometry_skipped"] = (self._stats.get("nonplanar_geometry_skipped", 0)
+                                                     + int(not self._full(case)["planar"]))
         self._stats["kinds"][k] = self._stats["kinds"].get(k, 0) + 1
         return res["nc"] >= 2 and sum(case["A"][i][i] for i in range(res["nd"])) != 0
 
